@@ -2,6 +2,7 @@ import RocflModel.Script
 import RocflModel.Commit
 import RocflModel.ValidateNums
 import RocflModel.Validator
+import RocflModel.InvCheck
 /-
   Driver side of the physical-layer protocol: prints the model's install-phase scripts and runs the
   Lean trace monitors on observed traces.
@@ -45,6 +46,54 @@ def parseCall (s : String) : Option FsCall :=
 
 def hexLine (calls : List FsCall) : String :=
   ";".intercalate (calls.map showCall)
+
+/-- `<n> <arg>*n` -/
+def takeStrs : Nat → List String → Option (List Str × List String)
+  | 0, rest => some ([], rest)
+  | n + 1, t :: rest => do
+    let x ← decodeArg t
+    let (xs, r) ← takeStrs n rest
+    pure (x :: xs, r)
+  | _ + 1, [] => none
+
+/-- `<k> (<digest> <n> <path>*n)*k` -/
+def takeTable : Nat → List String → Option (List (Str × List Str) × List String)
+  | 0, rest => some ([], rest)
+  | k + 1, d :: n :: rest => do
+    let d ← decodeArg d
+    let n ← n.toNat?
+    let (ps, r) ← takeStrs n rest
+    let (es, r') ← takeTable k r
+    pure ((d, ps) :: es, r')
+  | _ + 1, _ => none
+
+def takeVersions : Nat → List String → Option (List InvCheck.AVersion × List String)
+  | 0, rest => some ([], rest)
+  | m + 1, name :: k :: rest => do
+    let name ← decodeArg name
+    let k ← k.toNat?
+    let (st, r) ← takeTable k rest
+    let (vs, r') ← takeVersions m r
+    pure ({ name := name, state := st } :: vs, r')
+  | _ + 1, _ => none
+
+def parseAInv (a : List String) : Option InvCheck.AInv :=
+  match a with
+  | hexLen :: head :: cdir :: "M" :: k :: rest => do
+    let hexLen ← hexLen.toNat?
+    let head ← decodeArg head
+    let cdir ← if cdir == "~" then some none else (decodeArg cdir).map some
+    let k ← k.toNat?
+    let (man, r) ← takeTable k rest
+    match r with
+    | "V" :: m :: r2 => do
+      let m ← m.toNat?
+      let (vs, r3) ← takeVersions m r2
+      if r3.isEmpty then pure { hexLen := hexLen, head := head, contentDir := cdir, manifest := man, versions := vs } else none
+    | _ => none
+  | _ => none
+
+def b01 (b : Bool) : String := if b then "1" else "0"
 
 def physStep (op : String) (a : List String) : String :=
   match op, a with
@@ -138,6 +187,11 @@ def physStep (op : String) (a : List String) : String :=
     match c? with
     | some c => "ok " ++ ",".intercalate (Validator.expectedCodes c (fx == "1"))
     | none => "bad-arg"
+  | "script-invcheck", args =>
+    match parseAInv args with
+    | none => "bad-arg"
+    | some i =>
+      s!"ok {if InvCheck.check i then "valid" else "invalid"} cd={b01 (InvCheck.contentDirOk i.contentDir)} num={b01 (InvCheck.numberingOk i)} man={b01 (InvCheck.manifestOk i)} st={b01 (i.versions.all InvCheck.stateOk)} refs={b01 (InvCheck.refsOk i)}"
   | _, _ => "bad-op"
 
 end Driver
